@@ -223,6 +223,79 @@ def ground(mdl, node, dof, kg):
     return g
 
 
+def _clone(mdl, **kw):
+    g = Model(kw.get("xyz", mdl.xyz), kw.get("M", mdl.M), kw.get("K", mdl.K),
+              kw.get("mass", mdl.mass), kw.get("cgoff", mdl.cgoff),
+              kw.get("Jcg", mdl.Jcg), mdl.edges)
+    g.size, g.ell, g.kbase = (kw.get("size", mdl.size), kw.get("ell", mdl.ell),
+                              kw.get("kbase", mdl.kbase))
+    return g
+
+
+def scale_stiffness(mdl, f):
+    return _clone(mdl, K=mdl.K * f, kbase=mdl.kbase * f)
+
+
+def add_massless_grid(mdl, r, attach, kind):
+    """Append a node without mass, joined to node `attach` only.
+
+    kind = 'massless': full 6x6 joint  -> 6 DOF with stiffness and no mass.
+    kind = 'null'    : ball joint (3 translational springs at the new node) -> 3 massless
+                       translations with stiffness, 3 rotations with neither mass nor
+                       stiffness (null columns)."""
+    n = mdl.n
+    xnew = mdl.xyz[attach] + r.uniform(-0.3, 0.3, 3) * mdl.size
+    xyz = np.vstack([mdl.xyz, xnew])
+    nd = 6 * (n + 1)
+    M = np.zeros((nd, nd))
+    M[:6 * n, :6 * n] = mdl.M
+    K = np.zeros((nd, nd))
+    K[:6 * n, :6 * n] = mdl.K
+    ia = np.r_[6 * attach:6 * attach + 6, 6 * n:6 * n + 6]
+    if kind == "massless":
+        p = 0.5 * (mdl.xyz[attach] + xnew)
+        Ke = joint_element(mdl.xyz[attach], xnew, p, _spd6(r, mdl.kbase, mdl.ell))
+    else:
+        Q, _ = np.linalg.qr(r.standard_normal((3, 3)))
+        k3 = mdl.kbase * (Q * np.exp(r.uniform(np.log(0.3), np.log(3.0), 3))) @ Q.T
+        B = np.zeros((3, 12))
+        B[:, :6] = -rigid_map(xnew - mdl.xyz[attach])[:3]
+        B[:, 6:9] = np.eye(3)
+        Ke = B.T @ (0.5 * (k3 + k3.T)) @ B
+    K[np.ix_(ia, ia)] += Ke
+    K = 0.5 * (K + K.T)
+    return _clone(mdl, xyz=xyz, M=M, K=K, mass=np.r_[mdl.mass, 0.0],
+                  cgoff=np.vstack([mdl.cgoff, np.zeros(3)]),
+                  Jcg=np.concatenate([mdl.Jcg, np.zeros((1, 3, 3))]))
+
+
+def convert_model(mdl, L, Mc):
+    """The same structure expressed in other units: lengths x L, masses x Mc (time
+    unchanged): force x Mc L, stiffness F/length x Mc, moment/rad x Mc L^2."""
+    nd = 6 * mdl.n
+    t = np.zeros(nd, bool)
+    t[np.arange(nd) % 6 < 3] = True
+    s = np.where(t, 1.0, L)                     # M_new = Mc * s_i s_j * M_old
+    M = Mc * mdl.M * np.outer(s, s)
+    K = Mc * mdl.K * np.outer(s, s)
+    g = Model(mdl.xyz * L, M, K, mdl.mass * Mc, mdl.cgoff * L, mdl.Jcg * (Mc * L * L),
+              mdl.edges)
+    g.size, g.ell, g.kbase = mdl.size * L, mdl.ell * L, mdl.kbase * Mc
+    return g
+
+
+def cb_unit_factors(nb, nq, L, Mc):
+    """(c, d) of a CB model [b (grids: 3 trans, 3 rot), q]: u_old = c*u_new,
+    f_new = d*f_old.  Derived from the physical scaling in :func:`convert_model`:
+    x_old = x_new/L, rotations unchanged, modal coordinate q_old = q_new/(sqrt(Mc) L)
+    because mass-normalised mode shapes scale by 1/(sqrt(Mc) L); forces x Mc L, moments
+    x Mc L^2, modal force x sqrt(Mc) L."""
+    tb = (np.arange(nb) % 6) < 3
+    c = np.r_[np.where(tb, 1.0 / L, 1.0), np.full(nq, 1.0 / (np.sqrt(Mc) * L))]
+    d = np.r_[np.where(tb, Mc * L, Mc * L * L), np.full(nq, np.sqrt(Mc) * L)]
+    return c, d
+
+
 def selfcheck_model(mdl):
     """max scaled errors of (K RB = 0, RB^T M RB = parallel-axis mass, rank of K)."""
     ref = mdl.xyz.mean(axis=0)
@@ -361,6 +434,18 @@ def selfcheck():
         w_ph = sla.eigvalsh(mdl.K, mdl.M)
         err = np.abs(w_cb[6:] - w_ph[6:]).max() / w_ph.max()
         worst = max(worst, err)
+        # unit factors (c, d) agree with reducing the model re-expressed in new units
+        L, Mc = 39.37007874015748, 0.005710147154735817
+        cb2 = craig_bampton(*(lambda g: (g.M, g.K))(convert_model(mdl, L, Mc)), bd)
+        c, d = cb_unit_factors(6, cbm["nq"], L, Mc)
+        for key in ("m", "k"):
+            want = cbm[key] * np.outer(d, c)
+            got = cb2[key]
+            sc = np.sqrt(np.outer(np.abs(np.diag(want)), np.abs(np.diag(want)))) + 1e-7 * np.abs(want).max()
+            e1 = (np.abs(got[:6, :6] - want[:6, :6]) / sc[:6, :6]).max()
+            e2 = (np.abs(np.abs(got) - np.abs(want)) / sc).max()
+            if max(e1, e2) > 1e-8:
+                return False, f"unit factors disagree with physical route ({key})"
         # curvilinear triads are orthonormal and radial axis points away from the origin
         for ct in (1, 2, 3):
             c = random_cord(r, ct, 7, mdl.size, mdl.xyz[0])
